@@ -36,7 +36,7 @@ MANIFEST_ENTRY = {
             "generically over the primitives with theorems that they are the stated primitive calls; span counts and AlignedAllocator requests never wrap "
             "(C11_arena_span_in, C11_aligned_fits: full strength after the repairs 942989e, 532034f). TESTING ONLY (shadow-map oracle on the real allocators): "
             "heap/stack/pool payload contents at the memory level, AlignedAllocator over whole histories, the derived operations on the real code, release builds. "
-            "NOT COVERED: GeneralAllocator (libc) and GCAllocator (property C10), both named in the statement. Models are tied to the code by regenerated "
+            "The GC allocator is TESTED only (stream with collections enabled: garbage bursts, realloc growth in place across the pause threshold, pointers stored in the grown tail, collections inside alloc/realloc; oracle over the blocks reachable from the harness's roots) except for GC:reregister's in-place size update (C11_gc_reregister_size, tied to the scraped statement order). NOT COVERED: GeneralAllocator (libc), named in the statement; the collector itself is property C10. Models are tied to the code by regenerated "
             "constants and line-by-line correspondence of offsets and of the complete internal state.",
     "note": "trusted: Coq 8.16.1 kernel; the hand-written models (tied to /repo by regenerated constants and by differential correspondence of offsets and of the "
             "complete internal state after every operation, which is testing, not proof); extraction with ExtrOcamlBasic; OCaml/Nelua/Python harness glue. "
@@ -56,6 +56,7 @@ THEOREM_CLASSES = {
     "C11_heap_mem_invalid_realloc_reported": "corollary",
     "C11_heap_mem_payload_frame": "main", "C11_heap_mem_writes_aligned": "main", "C11_heap_geometry": "definitional",
     "C11_heap_deallocall_clears_iff_policy": "main", "C11_aligned_alloc_zero": "definitional",
+    "C11_gc_reregister_size": "main", "C11_gc_reregister_size_iff_policy": "main",
     "C11_heap_realloc_preserves": "main", "C11_heap_alloc0_zeroes": "definitional", "C11_heap_realloc0_zeroes": "definitional",
     "C11_iface_alloc0": "definitional", "C11_iface_xalloc": "definitional", "C11_iface_xrealloc": "definitional",
     "C11_iface_realloc0": "definitional", "C11_iface_spanalloc": "main", "C11_iface_spanrealloc": "definitional",
@@ -67,12 +68,13 @@ ALLOWED_AXIOMS = []
 TRUSTED_BASE = [
     "coqc 8.16.1 kernel (vm_compute used for parameter facts and refutation witnesses; no native_compute)",
     "no axioms: every theorem of coq/C11/Properties.v is 'Closed under the global context'; models mirror lib/allocators after the repairs 484ce8f, 961d315, 942c78c, b8d094a, 942989e, 532034f, 9ef0717, d9328b9, 23ac203, ccd321a",
-    "translator checks/C11.py:gen (regex scrape of ALLOC_ALIGN/MIN_ALLOC_SIZE/BIN_COUNT/BIN_MAX_LOOKUPS/NODE_COOKIE/HeapNode fields/get_bin_index constants in heap.nelua, the mark-clearing walk of HeapAllocatorT:deallocall as the boolean DEALLOCALL_CLEARS_MARKS, StackAllocHeader + static asserts in stack.nelua, default ALIGN in arena.nelua; typedefs.maxalign and pointer size probed through the real compiler)",
+    "translator checks/C11.py:gen (regex scrape of ALLOC_ALIGN/MIN_ALLOC_SIZE/BIN_COUNT/BIN_MAX_LOOKUPS/NODE_COOKIE/HeapNode fields/get_bin_index constants in heap.nelua, the mark-clearing walk of HeapAllocatorT:deallocall as the boolean DEALLOCALL_CLEARS_MARKS, the statement order of GC:reregister's in-place branch in gc.nelua (item.size written before self:step()) as the boolean REREGISTER_SIZE_BEFORE_STEP, StackAllocHeader + static asserts in stack.nelua, default ALIGN in arena.nelua; typedefs.maxalign and pointer size probed through the real compiler)",
     "extraction: Require Extraction + ExtrOcamlBasic only; Z/positive/nat stay Coq inductives; no Extract Constant of our own",
     "ocaml/zutil.ml + coq/C11/driver.ml (line protocol, handle table, closures handing an instance's primitives to the extracted interface wrappers, printing of the model state), harness/C11/driver.nelua (calls the allocators, keeps the handle table, prints offsets and internal state read through the allocator records), OCaml 4.13.1, gcc, the Nelua compiler itself (the driver is compiled by it, default checked build)",
     "modelled rather than verified: the allocators are mirrored by hand in coq/C11/Model.v (arena/stack/pool), Heap.v (memory-level heap), HeapA.v (abstract heap), Iface.v (derived operations), Aligned.v; the tie is the line-by-line correspondence of offsets and internal state on every check. Heap.v -> HeapA.v is NOT trusted: it is the proved refinement of coq/C11/Refine*.v",
     "payload contents are byte functions separate from the allocator's own memory (arena a_bytes, heap hb_bytes); for the heap, that header writes never land in a live payload is the separate memory-level theorem C11_heap_mem_payload_frame (all writes of Heap.v go to header words of old/new chunks)",
-    "GeneralAllocator (libc malloc/calloc/realloc/free) and GCAllocator (property C10) are outside the Coq models",
+    "GeneralAllocator (libc malloc/calloc/realloc/free) is outside the Coq models; of the GC allocator only the in-place branch of GC:reregister is modelled (coq/C11/GcRereg.v: item table as a node array, the collection inside self:step() as an arbitrary function on it that keeps the block's entry); the collector itself is property C10. The GC allocator's contract is TESTED by the stream of harness/C11/gcdriver.nelua",
+    "harness/C11/gcdriver.nelua + the GcRunner oracle in checks/C11.py (object graph kept in Python; handles XOR-masked in memory the collector does not scan; glibc malloc decides whether a realloc grows in place)",
 ]
 ASSUMPTIONS = [
     "the buffer is a real object: base > 0 and base + SIZE + ALIGN + header (+ MIN_ALLOC_SIZE for the heap) <= 2^64 (no address wrap)",
@@ -145,10 +147,22 @@ def gen(ctx):
     clears = bool(walk and re.search(r"node\.next\s*=\s*nilptr", walk.group(1)) and re.search(r"node\.prev\s*=\s*nilptr", walk.group(1))
                   and re.search(r"node\.next\s*=\s*nilptr", walk.group(2)) and re.search(r"node\.prev\s*=\s*nilptr", walk.group(2)))
     out["DEALLOCALL_CLEARS_MARKS"] = clears
+    # statement order in GC:reregister, in-place branch: item.size is written BEFORE the first call that can run a collection (self:step()),
+    # after which the item pointer obtained from items:peek may be stale (GC_rehash compacts the node array)
+    gcsrc = vlib.repo_read("lib/allocators/gc.nelua")
+    rr = _need(r"function GC:reregister\(.*?\n(.*?)\n  else -- moved", gcsrc, "GC:reregister in-place branch", re.S).group(1)
+    _need(r"self\.items:peek\(oldptr\)", rr, "items:peek in GC:reregister")
+    wpos = re.search(r"item\.size\s*=\s*newsize", rr)
+    spos = re.search(r"self:step\(\)|self:collect\(\)", rr)
+    if not wpos:
+        raise RuntimeError("C11 gen: GC:reregister no longer writes item.size = newsize in its in-place branch")
+    size_first = bool(spos is None or wpos.start() < spos.start())
+    out["REREGISTER_SIZE_BEFORE_STEP"] = size_first
     txt = "(* GENERATED by checks/C11.py from /repo/lib/allocators - do not edit *)\nFrom Coq Require Import ZArith.\n"
     for k in order:
         txt += "Definition %s : Z := %d%%Z.\n" % (k, out[k])
     txt += "Definition DEALLOCALL_CLEARS_MARKS : bool := %s.\n" % ("true" if clears else "false")
+    txt += "Definition REREGISTER_SIZE_BEFORE_STEP : bool := %s.\n" % ("true" if size_first else "false")
     vlib.write_if_changed(os.path.join(vlib.coq_dir(ID), "Gen.v"), txt)
     return out
 
@@ -897,6 +911,340 @@ def strip_impl(resp):
     return re.sub(r" z[01]", "", resp)
 
 
+
+# --------------------------------------------------------------------------------------------
+# GC allocator stream (harness/C11/gcdriver.nelua): the allocator-contract view of lib/allocators/gc.nelua
+# with collections ENABLED.  One process per history; the oracle keeps the object graph (roots -> blocks ->
+# pointer slots) and checks, for every block reachable from the roots the harness holds: aligned, registered
+# with the requested size (what the mark phase scans), disjoint from every other block that has not been
+# finalized, contents preserved, never finalized; and the collector's own accounting (membytes = sum of sizes).
+# --------------------------------------------------------------------------------------------
+GC_NROOTS = 16
+GC_ALIGN = 16
+
+
+class GcProc:
+    def __init__(self, exe):
+        self.p = subprocess.Popen([exe], stdin=subprocess.PIPE, stdout=subprocess.PIPE, stderr=subprocess.PIPE, text=True, bufsize=1)
+
+    def send(self, line):
+        try:
+            self.p.stdin.write(line + "\n")
+            self.p.stdin.flush()
+        except (BrokenPipeError, OSError):
+            raise Dead(self.death())
+        r = self.p.stdout.readline()
+        if not r:
+            raise Dead(self.death())
+        return r.rstrip("\n")
+
+    def death(self):
+        try:
+            self.p.stdin.close()
+        except Exception:
+            pass
+        err = self.p.stderr.read()
+        return "rc=%s %s" % (self.p.wait(), err.strip()[-200:])
+
+    def close(self):
+        try:
+            self.p.stdin.close()
+            self.p.wait(timeout=10)
+        except Exception:
+            self.p.kill()
+
+
+class GcRunner:
+    def __init__(self, exe):
+        self.proc = GcProc(exe)
+        self.blocks = {}       # h -> {"addr","size","slots":{off:g},"seed","plen"}   (not finalized as far as we know)
+        self.roots = {}        # r -> h
+        self.lines = []        # (line, response)
+        self.problems = []     # (what, detail, index of the line)
+        self.next_h = 0
+        self.inplace_grow_collect = 0
+
+    def bad(self, what, detail):
+        self.problems.append((what, detail, len(self.lines) - 1))
+
+    def reachable(self):
+        seen = set()
+        todo = [h for h in self.roots.values() if h in self.blocks]
+        while todo:
+            h = todo.pop()
+            if h in seen:
+                continue
+            seen.add(h)
+            for g in self.blocks[h]["slots"].values():
+                if g in self.blocks and g not in seen:
+                    todo.append(g)
+        return seen
+
+    def do(self, line):
+        reach = self.reachable()
+        resp = self.proc.send(line)
+        self.lines.append((line, resp))
+        w = line.split()
+        op = w[0]
+        moved = None
+        res, _, st = resp.partition(" | ")
+        kv = dict(x.split("=", 1) for x in st.split() if "=" in x)
+        fins = [int(x) for x in kv.get("F", "").split(",") if x]
+        rw = res.split()
+        # -- the operation itself
+        if op == "alloc":
+            h, n = int(w[1]), int(w[2])
+            if not rw or not rw[0].isdigit():
+                self.bad("gc-alloc-failed", "alloc0(%d) returned nilptr" % n)
+            else:
+                addr = int(rw[0])
+                self.check_block(h, addr, n, rw)
+                self.blocks[h] = {"addr": addr, "size": n, "slots": {}, "seed": None, "plen": 0}
+                if w[3] == "R":
+                    self.roots[int(w[4])] = h
+                else:
+                    self.blocks[int(w[4])]["slots"][int(w[5])] = h
+        elif op == "root":
+            r, h = int(w[1]), int(w[2])
+            if h < 0:
+                self.roots.pop(r, None)
+            else:
+                self.roots[r] = h
+        elif op == "store":
+            pblk, off, h = int(w[1]), int(w[2]), int(w[3])
+            if h < 0:
+                self.blocks[pblk]["slots"].pop(off, None)
+            else:
+                self.blocks[pblk]["slots"][off] = h
+        elif op == "realloc":
+            h, n = int(w[1]), int(w[2])
+            b = self.blocks[h]
+            if not rw or not rw[0].isdigit():
+                self.bad("gc-alloc-failed", "realloc0(%d -> %d) returned nilptr" % (b["size"], n))
+            else:
+                addr = int(rw[0])
+                old = self.blocks.pop(h)
+                self.check_block(h, addr, n, rw)
+                old["slots"] = {o: g for o, g in old["slots"].items() if o + 8 <= n}
+                old.update(addr=addr, plen=min(old["plen"], n))
+                grew = n > old["size"]
+                old["size"] = n
+                self.blocks[h] = old
+                if grew and "ip=1" in rw and int(kv.get("items", "0")) < self.items_before:
+                    self.inplace_grow_collect += 1
+                if "ip=0" in rw:
+                    moved = h       # the block moved: the roots and slots that refer to it are refreshed below (no allocation in between)
+        elif op == "dealloc":
+            h = int(w[1])
+            self.blocks.pop(h, None)
+            for r in [r for r, g in self.roots.items() if g == h]:
+                del self.roots[r]
+            if h in fins:
+                fins.remove(h)
+            reach.discard(h)
+        elif op == "fill":
+            b = self.blocks[int(w[1])]
+            b["seed"], b["plen"] = int(w[2]), b["size"]
+        elif op == "verify":
+            h = int(w[1])
+            k = int(res[1:]) if res.startswith("m") and res[1:].isdigit() else -1
+            if k < min(int(w[3]), self.blocks[h]["size"]):
+                self.bad("gc-contents-changed", "block %d (%d bytes): byte %d of the %s bytes that must be preserved changed" % (h, self.blocks[h]["size"], k, w[3]))
+        # -- finalizers that ran during the operation
+        for h in fins:
+            if h in reach:
+                self.bad("gc-reachable-collected", "block %d (%d bytes) was finalized and freed during '%s' although it is reachable from the roots" %
+                         (h, self.blocks.get(h, {}).get("size", -1), line))
+            self.blocks.pop(h, None)
+        # -- the collector's books
+        if "mem" in kv and kv["mem"] != kv.get("sum"):
+            self.bad("gc-accounting", "gc.membytes = %s but the registered blocks add up to %s bytes" % (kv["mem"], kv.get("sum")))
+        self.items_before = int(kv.get("items", "0"))
+        if moved is not None and moved in self.blocks:
+            for r in sorted(r for r, g in self.roots.items() if g == moved):
+                self.do("root %d %d" % (r, moved))
+            for pb in sorted(self.blocks):
+                for off in sorted(o for o, g in self.blocks[pb]["slots"].items() if g == moved):
+                    self.do("store %d %d %d" % (pb, off, moved))
+        return resp
+
+    items_before = 0
+
+    def check_block(self, h, addr, n, rw):
+        if addr % GC_ALIGN != 0:
+            self.bad("gc-misaligned", "block %d at an address = %d mod %d" % (h, addr % GC_ALIGN, GC_ALIGN))
+        isz = [x[4:] for x in rw if x.startswith("isz=")]
+        if isz and isz[0] != str(n):
+            self.bad("gc-registered-size", "block %d of %d bytes is registered in the collector with size %s (the mark phase scans that many bytes)" % (h, n, isz[0]))
+        for g, b in self.blocks.items():
+            if g != h and addr < b["addr"] + b["size"] and b["addr"] < addr + n:
+                self.bad("gc-overlap", "block %d [+%d) overlaps block %d [+%d) which has not been finalized" % (h, n, g, b["size"]))
+
+    def fresh(self):
+        self.next_h += 1
+        return self.next_h - 1
+
+
+def gc_history(R, rng, style, nops):
+    """(i) garbage bursts, (ii) realloc growth (in place where the system allocator allows, crossing the pause threshold), (iii) pointers to live
+    blocks at random offsets including the freshly grown tail, (iv) collections at random points including inside alloc/realloc."""
+    def verify_all():
+        for h in sorted(R.reachable()):
+            b = R.blocks[h]
+            if b["seed"] is not None and b["plen"] > 0:
+                R.do("verify %d %d %d" % (h, b["seed"], b["plen"]))
+
+    def free_slot(h, lo=0):
+        b = R.blocks[h]
+        used = b.setdefault("used", set())           # the driver remembers at most 32 slot offsets per block
+        used.intersection_update(o for o in used if o + 8 <= b["size"])
+        cands = [o for o in range((lo + 7) // 8 * 8, b["size"] - 7, 8) if o not in b["slots"]]
+        if len(used) >= 28:
+            cands = [o for o in cands if o in used]
+        if not cands:
+            return None
+        o = rng.choice(cands)
+        used.add(o)
+        return o
+
+    def new_block(size, parent=None, lo=0):
+        h = R.fresh()
+        off = free_slot(parent, lo) if parent is not None else None
+        if off is not None:
+            R.do("alloc %d %d S %d %d" % (h, size, parent, off))
+        else:
+            free_r = [r for r in range(GC_NROOTS) if r not in R.roots] or [rng.randrange(GC_NROOTS)]
+            R.do("alloc %d %d R %d" % (h, size, rng.choice(free_r)))
+        if h in R.blocks and rng.random() < .8:
+            R.do("fill %d %d" % (h, rng.randrange(250)))
+        return h
+
+    def pressure():
+        # a late-registered block grown by realloc right after a burst of garbage, the growth crossing the pause threshold
+        if rng.random() < .8:
+            R.do("stop")
+        R.do("garbage %d %d" % (rng.choice([100, 200, 300, 500, 800]), rng.choice([16, 32, 48, 64, 100])))
+        size = rng.choice([1000, 4000, 16000, 40000, 70000]) + 8 * rng.randrange(0, 50)
+        h = new_block(size)
+        R.do("restart")
+        if h not in R.blocks:
+            return
+        new = size + max(64, int(size * rng.choice([.1, .25, .5, 1.0]))) // 8 * 8
+        R.do("realloc %d %d" % (h, new))
+        if h not in R.blocks:
+            return
+        for _ in range(rng.randint(1, 3)):              # children referenced ONLY from the grown tail
+            new_block(rng.choice([16, 32, 64, 200]), parent=h, lo=size)
+        if rng.random() < .5:
+            new_block(rng.choice([16, 32, 64]), parent=h)
+        R.do("collect")
+        verify_all()
+        for _ in range(rng.randint(2, 6)):              # memory freed by mistake would be handed out again here
+            new_block(rng.choice([16, 32, 64, 200]))
+        verify_all()
+
+    if style == "pressure":
+        for _ in range(rng.randint(1, 3)):
+            pressure()
+            if R.problems:
+                return
+    n = 0
+    while n < nops and not R.problems:
+        n += 1
+        reach = sorted(R.reachable())
+        r = rng.random()
+        if r < .30 or not reach:
+            parent = rng.choice(reach) if reach and rng.random() < .6 else None
+            new_block(rng.choice([8, 16, 24, 32, 64, 100, 256, 1000, 5000, 30000]) + rng.choice([0, 0, 8, 1, 7]), parent)
+        elif r < .50:
+            h = rng.choice(reach)
+            b = R.blocks[h]
+            if b["seed"] is not None and b["plen"]:
+                R.do("verify %d %d %d" % (h, b["seed"], b["plen"]))
+            new = max(8, int(b["size"] * rng.choice([.5, .9, 1.1, 1.5, 2, 3])) // 8 * 8 + rng.choice([0, 0, 8]))
+            old = b["size"]
+            R.do("realloc %d %d" % (h, new))
+            if h in R.blocks and new > old and rng.random() < .7:
+                new_block(rng.choice([16, 32, 64]), parent=h, lo=old)
+        elif r < .60:
+            R.do("garbage %d %d" % (rng.choice([10, 50, 200, 400]), rng.choice([16, 32, 64, 500])))
+        elif r < .70:
+            if R.roots and rng.random() < .5:
+                R.do("root %d -1" % rng.choice(sorted(R.roots)))
+            else:
+                cands = [(h, o) for h in reach for o in R.blocks[h]["slots"]]
+                if cands:
+                    h, o = rng.choice(cands)
+                    R.do("store %d %d -1" % (h, o))
+        elif r < .78:
+            h, g = rng.choice(reach), rng.choice(reach)          # extra edges (cycles, sharing)
+            o = free_slot(h)
+            if o is not None:
+                R.do("store %d %d %d" % (h, o, g))
+        elif r < .86:
+            R.do(rng.choice(["collect", "collect", "step"]))
+            verify_all()
+        elif r < .90:
+            R.do(rng.choice(["stop", "restart", "restart", "setpause %d" % rng.choice([100, 150, 200, 300])]))
+        elif r < .94 and reach:
+            h = rng.choice(reach)
+            R.do("dealloc %d" % h)
+        else:
+            pressure()
+    if not R.problems:
+        R.do("restart")
+        R.do("collect")
+        verify_all()
+
+
+def run_gc_stream(ctx, work, stats):
+    src = os.path.join(vlib.VERIF, "harness", ID, "gcdriver.nelua")
+    exe = os.path.join(work, "gcdriver-%s" % vlib.sha_files([src] + vlib.walk_files(os.path.join(vlib.REPO, "lib"), (".nelua",)) +
+                                                          vlib.walk_files(os.path.join(vlib.REPO, "lualib"), (".lua",)))[:16])
+    if not os.path.exists(exe):
+        for f in os.listdir(work):
+            if f.startswith("gcdriver-"):
+                try:
+                    os.remove(os.path.join(work, f))
+                except OSError:
+                    pass
+        cdir_ = os.path.join(work, "nelua-cache-gc-%d" % os.getpid())
+        rc, o, e = vlib.nelua_build(src, exe, cache_dir=cdir_)
+        shutil.rmtree(cdir_, ignore_errors=True)
+        if rc != 0 or not os.path.exists(exe):
+            ctx.violation("gcdriver-build", "harness", "harness/C11/gcdriver.nelua does not compile against the current lib/allocators: %s" % (o + e)[-600:],
+                          failing_input=False)
+            return {}
+    rng = ctx.rng
+    out = {"histories": 0, "ops": 0, "inplace_grow_with_collection": 0, "by_style": {}}
+    for i in range(ctx.scale(36, 600)):
+        style = "pressure" if i % 3 != 2 else "mixed"
+        R = GcRunner(exe)
+        try:
+            gc_history(R, rng, style, ctx.scale(40, 70))
+        except Dead as d:
+            R.problems.append(("gc-aborted", "the process aborted in a valid history: %s" % d, len(R.lines) - 1))
+        except (KeyError, IndexError, ValueError):
+            if not R.problems:
+                raise
+        R.proc.close()
+        out["histories"] += 1
+        out["ops"] += len(R.lines)
+        out["inplace_grow_with_collection"] += R.inplace_grow_collect
+        out["by_style"][style] = out["by_style"].get(style, 0) + 1
+        if R.problems:
+            stats["oracle_failures"] += 1
+            what, detail, at = R.problems[0]
+            upto = [l for l, _ in R.lines[:at + 1]]
+            core = [l for l in upto if l.split()[0] not in ("fill", "verify")] if what != "gc-contents-changed" else upto
+            ctx.violation("%s:gc:%s" % (what, "; ".join(core[-14:])), "oracle", "GCAllocator: %s" % detail,
+                          detail={"problem": what, "ops": upto, "all_problems": [(w_, d_) for w_, d_, _ in R.problems[:6]],
+                                  "transcript_tail": [list(x) for x in R.lines[max(0, at - 6):at + 1]],
+                                  "replay": "printf '%%s\\n' %s | %s" % (" ".join("'%s'" % l for l in upto[:120]), exe)})
+            if len(ctx.violations) > 12:
+                break
+    return out
+
 # --------------------------------------------------------------------------------------------
 def correspond(ctx):
     rng = ctx.rng
@@ -1021,6 +1369,10 @@ def correspond(ctx):
             ctx.violation(UB_KEY, "oracle", "%s -- %s" % (UB_WHAT, (e.strip().split("\n") or [""])[0][:300] or ("exit status %s, output %r" % (rc, o[:80]))),
                           detail={"source": "harness/C11/ubprobe.nelua", "cflags": "-fsanitize=alignment -fno-sanitize-recover=all", "replay": ubexe,
                                   "proposed_repair": "harness/C11/proposed_repairs/"})
+
+    # ---- 1d. the GC allocator with collections enabled (allocator-contract view; the collector itself is property C10)
+    gcstats = run_gc_stream(ctx, work, stats)
+    stats["ops"] += gcstats.get("ops", 0)
 
     # ---- 2. precondition-violating histories, one process each, outcome compared as an enum
     viol = list(VIOLATING)
@@ -1158,13 +1510,14 @@ def correspond(ctx):
                 "interactive histories (styles mixed/lifo/fifo/realloc-heavy/churn) over 7 arena, 5 stack, 5 pool, 6 heap and 2 AlignedAllocator(arena) instances; sizes drawn from 0,1,align+-1, "
                 "remaining capacity+-1, capacity+-1, free-chunk size +- header/MIN_ALLOC/align (split and grow thresholds), bin boundaries 2^k+-1, 2^63, and the whole "
                 "wrap-around zone up to 2^64-1 (2^64-curr+-k, 2^64-SIZE.., 2^64-47..2^64-1); alloc(0) everywhere; pool deallocall before the first alloc; shrinking "
-                "reallocs in front of free chunks; every history ends by releasing everything and re-requesting the largest initial request. evaluations = operations "
+                "reallocs in front of free chunks; every history ends by releasing everything and re-requesting the largest initial request. a GC allocator stream (one process per history, collections enabled: pressure macro = stop, garbage burst, late block, restart, realloc growth, children stored only in the grown tail, collect, re-allocate; plus mixed histories with random roots/slots/cycles/dealloc/setpause); evaluations = operations "
                 "executed on the real allocators; non-trivial = distinct histories with >= 3 successful allocations and >= 1 dealloc/realloc. The only precondition kept "
                 "in the valid stream is the documented one of the stack (dealloc/realloc-to-0 in LIFO order)",
         "samples": samples,
         "distribution": {"histories_by_kind": stats["by_kind"], "by_style": stats["by_style"], "ops": stats["by_op"],
                          "repaired_defect_histories": len(REGRESSIONS), "violating_histories": len(viol)},
         "histories": stats["histories"],
+        "gc_stream": gcstats,
         "oracle_failures": stats["oracle_failures"],
         "model_mismatches": stats["model_mismatches"],
         "traces_validated_against_impl": stats["histories"] + len(REGRESSIONS) + len(viol),
@@ -1178,7 +1531,7 @@ UNPROVED = [
     "pool: pool_good has no alignment clause beyond 'is a chunk start' (the alignment of T inside the chunk union is the compiler's layout, property C03)",
     "AlignedAllocator: alignment arithmetic, single-step alloc spec and 'fits in a fresh good block of the arena in any reachable arena state' are proved; a history-level theorem over aligned alloc/dealloc/realloc (headers of live aligned blocks are never overwritten) is not; its default realloc's memory.move is not a contents theorem",
     "stack/pool: realloc never moves a block (it returns p or nil), contents preservation is therefore not stated separately",
-    "GeneralAllocator (libc) and GCAllocator (C10) are outside the Coq models; release builds (checks compiled out) are not exercised",
+    "GeneralAllocator (libc) is outside the Coq models; the GC allocator's contract (aligned, registered with the requested size, disjoint while not finalized, contents preserved, reachable blocks never collected, membytes = sum of sizes) is TESTED on histories with collections enabled, not proved - only GC:reregister's in-place size update is a theorem (C11_gc_reregister_size, on a model in which the collection inside step is an arbitrary entry-preserving function); release builds (checks compiled out) are not exercised",
     "NODE = 32 and ALLOC_ALIGN = 16 are literals in the proofs (NODE_eq / ALIGN_eq, 'mod 16' arithmetic): Gen.v regenerates them and the build fails if they change, but a change needs the proofs revisited. The bin tuning constants are parametric: get_bin_index_p_range holds for any BIN_MIN_LOG >= 0, BIN_COUNT > 0 with BIN_MIN_LOG + BIN_COUNT <= 32 and BIN_CLZ_BASE = 31 - BIN_MIN_LOG (side conditions re-checked by computation on the regenerated constants)",
 ]
 
